@@ -43,6 +43,9 @@ impl Prop for C15 {
     fn run_timeout_s(&self) -> u64 {
         90
     }
+    fn worker_mem_limit_gb(&self) -> Option<u64> {
+        Some(12)
+    }
     fn rule(&self) -> &'static str {
         "one run = one generated program (or non-terminating program, or option-validation sweep) whose exact cycle need n is measured with an unlimited timer; the timer is then fired at every m in {max(64,n-3)..n+3} and at sampled m in [64,n); one evaluation = one (program, m) execution. Non-trivial = the unlimited execution succeeded (or the program is non-terminating by construction) and at least one instant on each side of n that exists was exercised; distinct = digest of (source, inputs, instants)."
     }
